@@ -194,6 +194,23 @@ def run_field(shard):
                     for k, m in list(hm_.items()) + [(10 + k_, m_) for k_, m_ in fe.items()]:
                         compare(acc, q, m, 'hybridization (%s) query=%s molecule=%d' % (kname, sub, k))
         acc.sample({'field': 'charge x radical, hydrogens, hybridization', 'full product': True})
+    elif kind == 'elhyb':
+        # hybridisation shares its word with the elements above Ba: every element as molecule atom x every hybridisation label x constrained queries of each kind
+        subs = [None, (1,), (2,), (3,), (4,), (1, 3), (2, 4)]
+        for z in range(lo, hi):
+            sym = Element.from_atomic_number(z).__name__
+            mols = {}
+            for k in (1, 2, 3, 4):
+                m = star(sym, [])
+                m.atom(1)._hybridization = k
+                mols[k] = m
+            qs = [('element', lambda **kw: qatom(z, **kw)), ('any-atom', lambda **kw: qatom(kind='A', **kw)), ('list', lambda **kw: qatom(symbols=(sym, 'C' if sym != 'C' else 'N', 'U' if sym != 'U' else 'Pu'), **kw)),
+                  ('any-metal', lambda **kw: qatom(kind='M', **kw))]
+            for kname, mk_ in qs:
+                for sub in subs:
+                    q = q1(mk_(hybridization=sub))
+                    for k, m in mols.items():
+                        compare(acc, q, m, 'element x hybridization (%s) query=%s molecule=%s z%d' % (kname, sub, sym, k))
     elif kind == 'counts':
         # neighbours / heteroatoms: every singleton and pair within 0..14 vs 0..14
         specs = [(k,) for k in range(15)] + list(itertools.combinations(range(15), 2)) + [None]
@@ -311,6 +328,7 @@ def plan(tier, seed):
     st = [Stage('element x element', run_field, [('element', a, min(a + 8, 119)) for a in range(1, 119, 8)], 'query element 1..118 (+lists, A, M) x molecule element 1..118'),
           Stage('isotopes', run_field, [('isotope', a, min(a + 8, 119)) for a in range(1, 119, 8)], 'every element: (unspecified + every tabulated isotope)^2'),
           Stage('charge, radical, hydrogens, hybridization', run_field, [('scalar', 0, 0)], 'full products'),
+          Stage('element x hybridization', run_field, [('elhyb', a, min(a + 8, 119)) for a in range(1, 119, 8)], 'every element 1..118 as molecule atom x hybridisation label 1..4 x {element, any-atom, list, any-metal} query x 7 hybridisation constraints'),
           Stage('neighbour / heteroatom counts', run_field, [('counts', k, 0) for k in range(8)], 'singletons and pairs within 0..14 x 0..14'),
           Stage('ring sizes', run_field, [('rings', k, 0) for k in range(8)], 'ring-size specs x rings 3..66, 70 and spiro pairs'),
           Stage('field pairs at boundaries', run_field, [('pairs', k, 0) for k in range(8)], 'every pair of 6 fields at {min, interior, max} x full boundary product on the molecule side'),
@@ -324,7 +342,12 @@ def replay(rec):
     head = key.split(' :: ')[-1]
     kind = head.split(' ')[0]
     accs = []
-    if kind == 'element':
+    if head.startswith('element x hybridization'):
+        from chython.periodictable import Element
+        import re
+        z = Element.from_symbol(re.search(r'molecule=(\S+) z', head).group(1))().atomic_number
+        accs = [run_field(('elhyb', z, z + 1))]
+    elif kind == 'element':
         from chython.periodictable import Element
         import re
         mt = re.match(r'element query=(\S+) ', head)
